@@ -62,6 +62,13 @@ def run(ck):
     ck.oblige("no library function calls the public readers or pops a user queue", not cons, "; ".join("%s:%d %s" % c for c in cons[:3]))
     if cons: ck.broken.append({"kind": "generated-fact", "name": "C06_user_queues_not_consumed_internally", "detail": ["%s:%d %s" % c for c in cons],
                                "meaning": "a queued user message can now be taken (and freed) by the library itself: which consumer gets it depends on timing, not on type and content"})
+    try:
+        uah = gen_dispatch.use_after_handover(vlib.REPO)
+    except Exception as e_:
+        uah = [(0, "translator failed", str(e_))]
+    ck.oblige("the dispatcher does not use a message after handing it to a queue", not uah, "; ".join("line %s after %s: %s" % u for u in uah[:2]))
+    if uah: ck.broken.append({"kind": "generated-fact", "name": "C06_no_use_after_handover", "detail": ["src/transmission/bidib_transmission_receive.c:%s after %s: %s" % u for u in uah],
+                              "meaning": "a reader thread that pops the message in between owns (and may free or overwrite) the bytes the receiver still reads"})
     exe = vlib.build_harness(); md = vlib.build_model_driver(cdir, "_C06")
     txt = open(os.path.join(cdir, "DispatchTab.v")).read()
     def lst(name): return [int(x) for x in re.search(r'Definition %s : list N := \[(.*?)\]\.' % name, txt).group(1).split(";") if x.strip()]
